@@ -211,7 +211,7 @@ impl EnvS {
     match &self.verdict {
       None | Some(VerdictS::Valid) => {},
       Some(VerdictS::Invalid) => s.push_str(" verdict=invalid"),
-      Some(VerdictS::Failed) => s.push_str(" verdict=failed"),
+      Some(VerdictS::Failed) | Some(VerdictS::Down) => s.push_str(" verdict=failed"),
       Some(VerdictS::Altered(p)) => {
         let _ = write!(s, " verdict=altered:{}", xhex(p));
       },
@@ -706,9 +706,10 @@ impl Gen {
         _ => None,
       };
       if self.cfg.modulator.is_some() {
-        env.verdict = Some(match self.rng.below(8) {
+        env.verdict = Some(match self.rng.below(9) {
           0 => VerdictS::Invalid,
           1 => VerdictS::Failed,
+          8 => VerdictS::Down,
           2 | 3 => {
             let mut p = self.payload();
             if p.is_empty() || p.len() > self.cfg.max_payload as usize {
@@ -834,6 +835,8 @@ pub async fn run_op(
     let mut s = m.script.lock().unwrap();
     s.ev_ok = env.ev_ok;
     s.verdict = env.verdict.clone().unwrap_or(VerdictS::Valid);
+    // exactly the first call of the request finds the modulator unreachable
+    s.down_calls = if matches!(env.verdict, Some(VerdictS::Down)) { 1 } else { 0 };
     s.auth = env.auth.clone().unwrap_or(AuthS::Failure);
     s.direct = env.direct.unwrap_or(Some(true));
   }
